@@ -6,8 +6,13 @@
   * FUEL MONOTONICITY (`parseExpr_fuel_mono`, … one per mutual function): a result that is not
     `oof` does not change when more fuel is given.
   * COMPLETENESS (`parse_print`): every string of the grammar — trees of any size, minimal or
-    redundant parentheses, arbitrary interleaved whitespace — compiles to the tree it denotes.
-  * as a corollary the grammar is UNAMBIGUOUS (`prints_unique`).
+    redundant parentheses, arbitrary interleaved whitespace — compiles to the tree it denotes,
+    for every context in which no registered name IS `inf` or `nan` (`Grammar.CtxOK'`).  Since the
+    repair of `parse_const` names that merely START with such a word (`info`, `nano`) are fine;
+    before it they had to be excluded (`Grammar.CtxOK`, which implies `CtxOK'`: `ctxOK_weaken`,
+    `parse_print_old`).
+  * as a corollary the grammar is UNAMBIGUOUS (`prints_unique`), and with soundness (C17) it IS
+    the accepted language (`accepted_iff_prints`).
 
   Proofs: `Cav/Lemmas/ParseBody.lean` (unfolding, monotonicity), `ParseLex.lean`/`ParseLexC.lean`
   (lexers), `ParseFuel.lean` (consumption, termination), `ParsePrint.lean` (completeness).
@@ -16,6 +21,7 @@ import Cav.Spec.Grammar
 import Cav.Lemmas.ParseBody
 import Cav.Lemmas.ParseFuel
 import Cav.Lemmas.ParsePrint
+import Cav.Lemmas.ParseSound
 
 namespace Cav.C06
 open Cav Cav.ParseLemmas
@@ -79,7 +85,7 @@ theorem compile_ne_outOfFuel (arity : Nat) (ctx : Ctx) (src : List Char) :
 /-! ### completeness -/
 
 /-- the parser's verdict on a string of the grammar, at exactly the fuel `compile` supplies -/
-theorem parseExpr_prints (arity : Nat) (ctx : Ctx) (hctx : Grammar.CtxOK arity ctx) (t : E) (s : List Char)
+theorem parseExpr_prints (arity : Nat) (ctx : Ctx) (hctx : Grammar.CtxOK' arity ctx) (t : E) (s : List Char)
     (h : Grammar.Prints ctx t s) : parseExpr (fuelFor s) ctx s = .ok [] t := by
   obtain ⟨f0, hf⟩ := prints_ev hctx h
   have h1 : parseExpr (max f0 (fuelFor s)) ctx s = .ok [] t := hf _ (Nat.le_max_left _ _)
@@ -88,7 +94,7 @@ theorem parseExpr_prints (arity : Nat) (ctx : Ctx) (hctx : Grammar.CtxOK arity c
 
 /-- COMPLETENESS: every string of the grammar compiles to the tree it denotes — for all trees of any size,
     all renderings (minimal or redundant parentheses), arbitrary interleaved whitespace. -/
-theorem parse_print (arity : Nat) (ctx : Ctx) (hctx : Grammar.CtxOK arity ctx) (t : E) (s : List Char)
+theorem parse_print (arity : Nat) (ctx : Ctx) (hctx : Grammar.CtxOK' arity ctx) (t : E) (s : List Char)
     (h : Grammar.Prints ctx t s) (src : List Char) (hsrc : stripWs src = s) :
     compile arity ctx src = .ok t := by
   unfold compile
@@ -110,16 +116,63 @@ theorem parse_print (arity : Nat) (ctx : Ctx) (hctx : Grammar.CtxOK arity ctx) (
     rfl
 
 /-- the grammar is unambiguous: a string denotes at most one tree -/
-theorem prints_unique (arity : Nat) (ctx : Ctx) (hctx : Grammar.CtxOK arity ctx) (t1 t2 : E) (s : List Char)
+theorem prints_unique (arity : Nat) (ctx : Ctx) (hctx : Grammar.CtxOK' arity ctx) (t1 t2 : E) (s : List Char)
     (h1 : Grammar.Prints ctx t1 s) (h2 : Grammar.Prints ctx t2 s) : t1 = t2 := by
   have e1 := parseExpr_prints arity ctx hctx t1 s h1
   have e2 := parseExpr_prints arity ctx hctx t2 s h2
   rw [e1] at e2
   cases e2; rfl
 
-/-! ### `CtxOK` is decidable -/
+/-- the side condition that was needed before the repair of `parse_const` implies the present one -/
+theorem ctxOK_weaken (arity : Nat) (ctx : Ctx) (h : Grammar.CtxOK arity ctx) : Grammar.CtxOK' arity ctx :=
+  ParseLemmas.ctxOK_weaken h
 
-/-- executable form of `CtxOK` -/
+/-- completeness as it was stated before the repair (now a corollary) -/
+theorem parse_print_old (arity : Nat) (ctx : Ctx) (hctx : Grammar.CtxOK arity ctx) (t : E) (s : List Char)
+    (h : Grammar.Prints ctx t s) (src : List Char) (hsrc : stripWs src = s) :
+    compile arity ctx src = .ok t :=
+  parse_print arity ctx (ctxOK_weaken arity ctx hctx) t s h src hsrc
+
+/-- EXACTNESS: for a context in which no registered name is `inf` or `nan`, the accepted strings
+    are exactly the strings of the grammar, with the tree they denote (soundness is
+    `C17.parse_sound`, for all contexts) -/
+theorem accepted_iff_prints (arity : Nat) (ctx : Ctx) (hctx : Grammar.CtxOK' arity ctx) (t : E)
+    (src : List Char) : compile arity ctx src = .ok t ↔ Grammar.Prints ctx t (stripWs src) :=
+  ⟨ParseSound.parse_sound arity ctx src t, fun h => parse_print arity ctx hctx t _ h src rfl⟩
+
+/-! ### `CtxOK'` and `CtxOK` are decidable -/
+
+/-- executable form of `CtxOK'` -/
+def ctxOKb' (arity : Nat) (ctx : Ctx) : Bool :=
+  ctx.all fun p =>
+    (match p.2 with | .var i => decide (i < arity) | _ => true) &&
+    (p.1.toList.map lower != ['n', 'a', 'n']) && (p.1.toList.map lower != ['i', 'n', 'f'])
+
+theorem ctxOK'_iff (arity : Nat) (ctx : Ctx) : Grammar.CtxOK' arity ctx ↔ ctxOKb' arity ctx = true := by
+  unfold Grammar.CtxOK' ctxOKb'
+  rw [List.all_eq_true]
+  constructor
+  · intro ⟨h1, h2⟩ p hp
+    have := h2 p hp
+    simp only [Bool.and_eq_true, bne_iff_ne, ne_eq]
+    refine ⟨⟨?_, this.1⟩, this.2⟩
+    cases hp2 : p.2 with
+    | var i => simpa using h1 p hp i hp2
+    | const => rfl
+    | uop => rfl
+  · intro h
+    refine ⟨fun p hp i hi => ?_, fun p hp => ?_⟩
+    · have := h p hp
+      simp only [Bool.and_eq_true, hi, decide_eq_true_eq] at this
+      exact this.1.1
+    · have := h p hp
+      simp only [Bool.and_eq_true, bne_iff_ne, ne_eq] at this
+      exact ⟨this.1.2, this.2⟩
+
+instance (arity : Nat) (ctx : Ctx) : Decidable (Grammar.CtxOK' arity ctx) :=
+  decidable_of_iff _ (ctxOK'_iff arity ctx).symm
+
+/-- executable form of `CtxOK` (the condition before the repair) -/
 def ctxOKb (arity : Nat) (ctx : Ctx) : Bool :=
   ctx.all fun p =>
     (match p.2 with | .var i => decide (i < arity) | _ => true) &&
@@ -154,10 +207,57 @@ instance (arity : Nat) (ctx : Ctx) : Decidable (Grammar.CtxOK arity ctx) :=
 /-- the default context with two variables -/
 def ctxXY : Ctx := defaultCtx.insert "x" (.var 0) |>.insert "y" (.var 1)
 
+/-- … and a constant whose name starts with a number word -/
+def ctxInfo : Ctx := ctxXY.insert "info" .const
+
+example : Grammar.CtxOK' 0 defaultCtx := by decide
+example : Grammar.CtxOK' 2 ctxXY := by decide
 example : Grammar.CtxOK 0 defaultCtx := by decide
 example : Grammar.CtxOK 2 ctxXY := by decide
-/-- `CtxOK` does exclude something: a constant called `info` would be shadowed by `inf` -/
-example : ¬ Grammar.CtxOK 0 (defaultCtx.insert "info" .const) := by decide
+/-- the OLD condition excluded a constant called `info` (it was shadowed by `inf`) … -/
+example : ¬ Grammar.CtxOK 2 ctxInfo := by decide
+/-- … the present one does not, nor `nano`, `infinity`, `nanometre`, `Infimum` … -/
+example : Grammar.CtxOK' 2 ctxInfo := by decide
+example : Grammar.CtxOK' 2 (ctxXY.insert "nano" .const |>.insert "infinity" .const
+    |>.insert "nanometre" (.var 0) |>.insert "Infimum" .uop) := by decide
+/-- … it still excludes something: a name that IS a number word, in any case -/
+example : ¬ Grammar.CtxOK' 2 (ctxXY.insert "inf" .const) := by decide
+example : ¬ Grammar.CtxOK' 2 (ctxXY.insert "NaN" .uop) := by decide
+
+/-- Boolean comparison of a `compile` result (for kernel evaluation of concrete instances) -/
+def resIs (r v : Except CompileErr E) : Bool :=
+  match r, v with
+  | .ok t, .ok t' => t == t'
+  | .error e, .error e' => e == e'
+  | _, _ => false
+
+theorem of_resIs {r v : Except CompileErr E} (h : resIs r v = true) : r = v := by
+  cases r <;> cases v <;> simp [resIs] at h <;> rw [h]
+
+/-- `info+1` is the constant `info` plus one (kernel evaluation of the model; before the repair
+    this was `.error .residue`: `inf` was taken as a number and `o+1` was left over) -/
+theorem info_plus_one :
+    compile 2 ctxInfo "info+1".toList = .ok (.bin .add (.cst "info") (.lit 1 0)) :=
+  of_resIs (by decide +kernel)
+
+/-- the same through `parse_print`, with whitespace -/
+example : compile 2 ctxInfo " info + 1 ".toList = .ok (.bin .add (.cst "info") (.lit 1 0)) := by
+  refine parse_print 2 ctxInfo (by decide) _ "info+1".toList ?_ _ (by decide)
+  have hinfo : Grammar.PAtom ctxInfo (.cst "info") ['i', 'n', 'f', 'o'] :=
+    Grammar.PAtom.cst (n := ['i', 'n', 'f', 'o'])
+      ⟨by simp, by intro d hd; simp at hd; rcases hd with rfl | rfl | rfl | rfl <;> decide⟩ (by decide)
+  have d1 : Grammar.Digits ['1'] := ⟨by simp, by intro d hd; simp at hd; rw [hd]; decide⟩
+  have n1 : Grammar.NumLeaf (.lit 1 0) ['1'] :=
+    Grammar.NumLeaf.dec _ 0 0 ['1'] [] (Grammar.Mantissa.int _ d1) Grammar.Exponent.none
+  exact Grammar.PExpr.add (.up (.up (.pos (.up hinfo)))) (.up (.pos (.up (.num n1))))
+
+/-- the number words themselves are still numbers, next to a name that starts with one; a word
+    directly followed by a letter is an error when the longer name is not registered -/
+example : compile 2 ctxInfo "inf+info".toList = .ok (.bin .add .litInf (.cst "info")) :=
+  of_resIs (by decide +kernel)
+example : compile 2 ctxInfo "nan*INF".toList = .ok (.bin .mul .litNan .litInf) :=
+  of_resIs (by decide +kernel)
+example : compile 2 ctxInfo "inf+Info".toList = .error .parsing := of_resIs (by decide +kernel)
 
 /-- `-x^2*sin(y)+3` denotes `((-(x^2)) * sin y) + 3` -/
 theorem prints_example :
